@@ -1,5 +1,6 @@
 import DocsModel.Props.C07
 import DocsModel.Model.Actor
+import DocsModel.Lemmas.Process
 /-!
 # C14 — the store actor honours open/close counting and the sync switch
 
@@ -62,7 +63,8 @@ theorem getOpen_delOpen_other (s : AState) (ns other : Bytes) (h : other ≠ ns)
 /-- data requests: everything that reads or writes entries, subscribes or reconciles -/
 def Action.needsOpen : Action → Option Bytes
   | .setSync ns _ | .subscribe ns | .unsubscribe ns | .insertLocal ns _ | .insertRemote ns _ _
-  | .getExact ns _ _ _ | .getMany ns | .syncInitial ns | .getState ns | .exportSecret ns => some ns
+  | .getExact ns _ _ _ | .getMany ns | .syncInitial ns | .syncProcess ns _ _ | .getState ns
+  | .exportSecret ns => some ns
   | _ => none
 
 /-- **Not open: fails and changes nothing.** -/
@@ -94,7 +96,8 @@ theorem close_reports_closed (s : AState) (ns : Bytes) :
 the open document. -/
 theorem sync_gate (s : AState) (ns : Bytes) (r : OpenRep) (hopen : getOpen s ns = some r) (hoff : r.sync = false)
     (now : Nat) (e : Entry) :
-    step s (.insertRemote ns now e) = (s, .errSyncDisabled) ∧ step s (.syncInitial ns) = (s, .errSyncDisabled) := by
+    step s (.insertRemote ns now e) = (s, .errSyncDisabled) ∧ step s (.syncInitial ns) = (s, .errSyncDisabled) ∧
+    ∀ msg, step s (.syncProcess ns now msg) = (s, .errSyncDisabled) := by
   simp [step, hopen, hoff]
 
 /-- **Enabling sync is sticky across additional opens**: once on, further opens (with or without
@@ -337,6 +340,19 @@ theorem step_openInv (s : AState) (a : Action) (inv : OpenInv s) : OpenInv (step
     cases getOpen s ns with
     | none => exact inv
     | some r => simp only; split <;> exact inv
+  | syncProcess ns now msg =>
+    simp only [step]
+    cases getOpen s ns with
+    | none => exact inv
+    | some r =>
+      simp only
+      split
+      · exact inv
+      · apply tables_inv
+        unfold Replica.syncProcessMessage
+        exact Ranger.processMessage_preserves (Ranger.tableOps ns) _ _ _
+          (fun t => ∀ ns', nsGet t ns' = nsGet s.t ns')
+          (fun t e h ns' => by rw [← h ns']; exact nsGet_put t e ns') s.t msg (fun _ => rfl)
   | getState ns => simp only [step]; cases getOpen s ns <;> exact inv
   | exportSecret ns =>
     simp only [step]
